@@ -61,7 +61,16 @@ def impl_str(case):
     str_noise()
     try:
         m = mido.Message(name, time=t, **kw)
+        # the documented way to leave the time out, asked before or after str() in turn: neither call may notice the other
+        first = _SN[0] % 2 == 0
+        bare = mido.format_as_string(m, include_time=False) if first else None
         s, r = str(m), repr(m)
+        if not first:
+            bare = mido.format_as_string(m, include_time=False)
+        if mido.format_as_string(m) != s:
+            fail = ('format_as_string', 'format_as_string(m) = %r but str(m) = %r' % (mido.format_as_string(m), s))
+        elif bare != s.rsplit(' time=', 1)[0] or ' time=' not in s:
+            fail = ('format_as_string', 'format_as_string(m, include_time=False) = %r where str(m) = %r' % (bare, s))
         out = canon.out_list([ord(c) for c in s]) + canon.out_list([ord(c) for c in r])
         try:
             back = mido.Message.from_str(s)
